@@ -15,7 +15,10 @@ def execute(case):
     try:
         seq = build(score, via(idx))
         line["in"] = P.raw_abs(seq)
-        seq.quantise(list(steps))
+        if steps == get_default_step_sizes() and idx % 2:
+            seq.quantise()            # the default grid through the default argument
+        else:
+            seq.quantise(list(steps))
         line["out"] = P.raw_abs(seq)
     except Exception as e:
         line["raised"] = f"{type(e).__name__}: {e}"
